@@ -87,6 +87,9 @@ void harness(void)
     f = Hopen("t.hdf", DFACC_CREATE, NDDS);
     H4V_ASSERT(f != FAIL, "C17.S1.A.open");
     H4V_ASSERT(Hputelement(f, 1000, 1, pay, 6) == 6 && Hputelement(f, 1000, 2, pay + 6, 3) == 3, "C17.S1.A.put");
+#if FULLBLK /* a third element: with ndds=4 the only descriptor block is then exactly full */
+    H4V_ASSERT(Hputelement(f, 1000, 3, pay + 33, 2) == 2, "C17.S1.A.put3");
+#endif
 #if WITHV
     H4V_ASSERT(Vstart(f) == SUCCEED, "C17.S1.A.vstart");
     vs = VSattach(f, -1, "w");
